@@ -27,8 +27,10 @@ def chain(rng, fresh, ordered):
         return [("ret", fresh())] + ([("n", rng.randint(1, 3))] if rng.random() < 0.6 else [])
     if k < 0.45:
         return [("ret", fresh()), ("n", rng.randint(1, 2)), ("then",), ("ret", fresh()), ("n", 1), ("then",), ("ans", fresh())]
-    if k < 0.6:
+    if k < 0.52:
         return [("ans", fresh())]
+    if k < 0.6:
+        return [("ans", 2000 + fresh())]      # re-entrant answer: calls p_ref(0) on the mock it receives
     if k < 0.75:
         return [("ret", fresh()), ("al", rng.randint(0, 2))]
     if k < 0.85:
@@ -49,8 +51,11 @@ def gen_case(rng):
         if rng.random() < (0.9 if mid != 23 else 0.6):
             for _ in range(rng.randint(1, 2) if not ordered else rng.randint(1, 3)):
                 mask = 255 if rng.random() < 0.7 else rng.randrange(256)
+                ops = chain(rng, fresh, ordered)
+                if mid not in (10, 11):      # re-entrant answers exist for the &self required methods only
+                    ops = [(o[0], o[1] - 2000) if o[0] == "ans" and o[1] >= 2000 else o for o in ops]
                 terms.append({"kind": "call", "mid": mid, "opener": "next" if ordered else rng.choice(["each", "each", "some"]),
-                              "pat": {"matcher": mask, "dbg": fresh(), "ops": chain(rng, fresh, ordered)}})
+                              "pat": {"matcher": mask, "dbg": fresh(), "ops": ops}})
     provided = rng.sample([14, 15, 16, 17, 18, 19, 24], rng.randint(0, 2))
     for mid in provided:
         how = rng.choice(["dfl", "dfl", "ret", "partial_mask"])
@@ -82,7 +87,7 @@ def gen_case(rng):
             evs.append({"base": ("call", i, m, rng.randrange(8))})
             if m in D.CONSUMING:
                 live.remove(i)
-        if rng.random() < 0.2 and live:
+        if rng.random() < 0.3 and live:
             evs.append({"base": ("count", live[0])})
     for i in sorted(live, reverse=True):
         evs.append({"base": ("drop" if i else rng.choice(["drop", "verify"]), i)})
